@@ -3,6 +3,7 @@ C05 — Locked or wrong passphrase means no private-key access, and memory is wi
 Property theorems about `AddrLock` (model of waddrmgr's lock state, buffers and caches).
 -/
 import BtcwVerif.Lemmas.AddrLock
+import BtcwVerif.Lemmas.AddrDou
 namespace AddrLock
 
 /-! ## 1. `C05_denied`: while locked or watching-only every private-material operation is refused -/
@@ -241,26 +242,8 @@ theorem unlockAccts_f2 (cfg : Cfg) (hf2 : cfg.f2 = true) (l : List (Nat × AcctI
     · exact ⟨(a, { i with keyPriv := true }) :: t', by simp [unlockAccts, hi, ht], by simp [hm]⟩
     · exact ⟨(a, i) :: t', by simp [unlockAccts, hi, hf2, ht], by simp [hm]⟩
 
-theorem aget_isSome_of_keys {β} (l l' : List (Nat × β)) (h : l'.map (·.1) = l.map (·.1)) (k : Nat) :
-    (aget l' k).isSome = (aget l k).isSome := by
-  induction l generalizing l' with
-  | nil => cases l' with | nil => rfl | cons _ _ => simp at h
-  | cons p t ih =>
-    cases l' with
-    | nil => simp at h
-    | cons p' t' =>
-      obtain ⟨k1, v1⟩ := p; obtain ⟨k2, v2⟩ := p'
-      simp only [List.map_cons, List.cons.injEq] at h
-      obtain ⟨hk, ht⟩ := h
-      have hk : k2 = k1 := hk
-      subst hk
-      by_cases hkk : k2 = k
-      · simp [aget, hkk]
-      · simp [aget, hkk, ih t' ht]
-
-/-- every address queued for derive-on-unlock belongs to an account that is in the account cache -/
-def DouOK (m : Mem) : Prop :=
-  ∀ sc, ∀ e ∈ (m.scopes sc).dou, (aget (m.scopes sc).acctInfo e.acct).isSome = true
+-- `aget_isSome_of_keys` and `DouOK` (every address queued for derive-on-unlock belongs to an account that is in the
+-- account cache) live in `Lemmas/AddrDou.lean`, where `DouOK` is carried through every operation.
 
 /-- processing a derive-on-unlock list whose accounts are all cached never fails on the fixed tree (f2b), touches
 only scope `sc` and the heap, and keeps the cached account numbers. -/
@@ -615,6 +598,79 @@ theorem C05_unlock_right_histories_partial (cfg : Cfg) (hf2 : cfg.f2 = true) (hf
     (hm : (run { cfg := cfg } ops).mem = some m) (hw : m.watchOnly = false) (hd : DouOK m) (d : Disk) :
     (unlock cfg d m m.privPass).2 = none ∧ (unlock cfg d m m.privPass).1.locked = false :=
   C05_unlock_right cfg hf2 hf2b d m hw (C05_passOK_invariant cfg ops hc m hm) hd
+
+/-! ### the full statements for the current tree (every fix flag on)
+
+`C05_unlock_wrong_histories_partial` / `C05_unlock_right_histories_partial` above are SUPERSEDED for the current tree
+by the two theorems below: hypothesis (a) "f12 or no EMPTY passphrase" is discharged by the configuration (the
+engine's probes report every flag on for /repo today, so the tree under test is `Cfg.fixed`-like), hypothesis (b)
+`DouOK` is an invariant of every history (`stDou_run`, Lemmas/AddrDou.lean).  The model has no
+InvalidateAccountCache op (waddrmgr's `InvalidateAccountCache`, which since /repo 4e25286 also drops the queued
+derive-on-unlock entries of the account, is outside the op set): no operation of the model removes an account from the
+account cache, so no operation can break `DouOK`; a restart (`reopen`) builds a fresh memory with empty caches and an
+empty queue.  "Current passphrase" is `m.privPass`, the passphrase the master-key parameters held by the RUNNING
+manager were made from (equal to the database's except after a rolled-back ChangePassphrase, observation O3). -/
+
+/-- the configuration of the current tree: every fix flag on (`cap` is free) -/
+def Cfg.allFixed (c : Cfg) : Prop :=
+  c.f1 = true ∧ c.f2 = true ∧ c.f2b = true ∧ c.f3 = true ∧ c.f11 = true ∧ c.f12 = true ∧ c.f13 = true ∧ c.fo1 = true
+
+theorem Cfg.fixed_allFixed : Cfg.fixed.allFixed := ⟨rfl, rfl, rfl, rfl, rfl, rfl, rfl, rfl⟩
+
+/-- `DouOK` and the pending-closure facts hold after EVERY history (any configuration). -/
+theorem C05_douOK_invariant (cfg : Cfg) (ops : List Op) : StDou (run { cfg := cfg } ops) :=
+  stDou_run _ ops (stDou_init cfg)
+
+/-- After EVERY history of model operations from `create` (brackets begin/commit/rollback, imports, watch-only
+accounts, lock/unlock, public and private passphrase changes locked or unlocked, restarts — any `List Op`), on the
+current tree, on a non-watching-only manager: `Unlock(current passphrase)` succeeds and leaves it unlocked — whatever
+database view `d` the call runs against. -/
+theorem C05_unlock_right_histories (cfg : Cfg) (hfix : cfg.allFixed) (ops : List Op) (m : Mem)
+    (hm : (run { cfg := cfg } ops).mem = some m) (hw : m.watchOnly = false) (d : Disk) :
+    (unlock cfg d m m.privPass).2 = none ∧ (unlock cfg d m m.privPass).1.locked = false :=
+  C05_unlock_right cfg hfix.2.1 hfix.2.2.1 d m hw
+    (C05_passOK_invariant cfg ops (Or.inl hfix.2.2.2.2.2.1) m hm) ((C05_douOK_invariant cfg ops).mem m hm).1
+
+/-- After EVERY history, on the current tree, on a non-watching-only manager: `Unlock(p)` for any `p` other than the
+current passphrase fails with ErrWrongPassphrase and leaves the manager locked — also when it was unlocked before. -/
+theorem C05_unlock_wrong_histories (cfg : Cfg) (hfix : cfg.allFixed) (ops : List Op) (m : Mem)
+    (hm : (run { cfg := cfg } ops).mem = some m) (hw : m.watchOnly = false) (p : Nat) (hp : p ≠ m.privPass) (d : Disk) :
+    (unlock cfg d m p).2 = some .wrongPassphrase ∧ (unlock cfg d m p).1.locked = true :=
+  C05_unlock_wrong cfg d m p hw (C05_passOK_invariant cfg ops (Or.inl hfix.2.2.2.2.2.1) m hm) hp
+
+/-- the same two facts as results of the model's `unlock` OPERATION issued after the history (inside or outside a
+bracket): `.ok` and unlocked for the current passphrase; `.err wrongPassphrase` and locked for any other. -/
+theorem C05_unlock_histories_step (cfg : Cfg) (hfix : cfg.allFixed) (ops : List Op) (m : Mem)
+    (hm : (run { cfg := cfg } ops).mem = some m) (hw : m.watchOnly = false) :
+    let s := run { cfg := cfg } ops
+    ((step s (.unlock m.privPass)).2 = .ok ∧ lockedOf (step s (.unlock m.privPass)).1 = some false) ∧
+    ∀ p, p ≠ m.privPass →
+      (step s (.unlock p)).2 = .err .wrongPassphrase ∧ lockedOf (step s (.unlock p)).1 = some true := by
+  intro s
+  have hcfg : s.cfg = cfg := run_cfg _ ops
+  have hm' : s.mem = some m := hm
+  have hstep : ∀ p, step s (.unlock p) =
+      ({ s with mem := some (unlock s.cfg s.disk m p).1 }, ofErr (unlock s.cfg s.disk m p).2) := by
+    intro p
+    simp only [step, hm', exec, Op.writes, Bool.not_false, Bool.or_true, if_true]
+  refine ⟨?_, fun p hp => ?_⟩
+  · obtain ⟨h1, h2⟩ := C05_unlock_right_histories cfg hfix ops m hm hw s.disk
+    rw [hstep, hcfg]; simp [lockedOf, h1, h2, ofErr]
+  · obtain ⟨h1, h2⟩ := C05_unlock_wrong_histories cfg hfix ops m hm hw p hp s.disk
+    rw [hstep, hcfg]; simp [lockedOf, h1, h2, ofErr]
+
+/-- non-vacuity of the full statements: a bracketed history with a watch-only account loaded while locked, addresses
+issued while locked inside a bracket, a Lock between issue and commit, a rolled-back bracket, a private passphrase
+change to the EMPTY passphrase and a restart reaches a non-watching-only manager; the theorems' conclusions are
+what the model computes. -/
+example :
+    let s := run { cfg := Cfg.fixed }
+      [.create 5 1, .unlock 1, .newAccount 1 "a" false, .newAccount 1 "x" true, .lock, .q (.props 1 2),
+       .begin, .next 1 2 2 false, .next 1 0 1 true, .commit, .begin, .next 1 1 1 false, .rollback,
+       .changePass 1 EMPTY true, .reopen 5, .q (.props 1 2), .next 1 1 1 false]
+    (s.mem.map fun m => (m.watchOnly, m.privPass, (step s (.unlock EMPTY)).2, (step s (.unlock 1)).2)) =
+      some (false, EMPTY, .ok, .err .wrongPassphrase) := by
+  decide
 
 /-- non-vacuity: a concrete history with accounts, a watch-only account, addresses issued while locked, and a
 passphrase change reaches a state where the hypotheses hold and Unlock(current) succeeds. -/
